@@ -84,7 +84,7 @@ var hostileDict = []string{
 }
 
 func mutateBytes(t *rapid.T, b []byte, pool []string) ([]byte, string) {
-	kind := rapid.SampledFrom([]string{"none", "truncate", "splice-hostile", "duplicate", "bitflip", "insert-hostile", "delete", "blowup", "replace-with-hostile", "swap-halves"}).Draw(t, "bytemut")
+	kind := rapid.SampledFrom([]string{"none", "none", "none", "none", "truncate", "splice-hostile", "duplicate", "bitflip", "insert-hostile", "delete", "blowup", "replace-with-hostile", "swap-halves"}).Draw(t, "bytemut")
 	pos := func(label string) int {
 		if len(b) == 0 {
 			return 0
